@@ -37,12 +37,20 @@ class StepSocket(sim.SimSocket):
             finally:
                 StepSocket._in_hook = False
 
+    timeout = None          # socket.settimeout(): a read that finds nothing blocks for that long, then raises socket.timeout
+    blocked = 0             # seconds the calling thread spent blocked in reads on this socket
+
     def recv(self, n, flags=0):
         import socket as _socket
         if flags & _socket.MSG_WAITALL:
             return sim.wait_all(self, n)
         if self.closed:
             raise _socket.error('closed')
+        if flags & _socket.MSG_PEEK and self.inbox:
+            return self.inbox[0][:n]
+        if not self.inbox and not self.eof and self.timeout is not None:
+            self.blocked += self.timeout
+            raise _socket.timeout('timed out')
         if self.inbox:
             seg = self.inbox.popleft()
             if len(seg) > n:
@@ -76,7 +84,10 @@ class StepSocket(sim.SimSocket):
         return A.FakeFile()
 
     def settimeout(self, t):
-        pass
+        self.timeout = t
+
+    def gettimeout(self):
+        return self.timeout
 
     def setsockopt(self, *a):
         pass
